@@ -50,142 +50,115 @@ type Iterator struct {
 	dataEnd       uint32 // Position where the actual entries data ends (before restart points)
 }
 
+// invalidate leaves the iterator positioned on no entry
+func (it *Iterator) invalidate() {
+	it.currentKey = nil
+	it.currentVal = nil
+	it.currentSeqNum = 0
+}
+
+// seekToRestartPoint moves the read position to the given restart point.
+// No entry is current afterwards; the next decodeNext reads the (full key)
+// entry stored at the restart point.
+func (it *Iterator) seekToRestartPoint(idx int) {
+	it.restartIdx = idx
+	it.currentPos = it.reader.restartPoints[idx]
+	it.invalidate()
+}
+
 // SeekToFirst positions the iterator at the first entry
 func (it *Iterator) SeekToFirst() {
+	it.initialized = true
+
 	if len(it.reader.restartPoints) == 0 {
-		it.currentKey = nil
-		it.currentVal = nil
-		it.initialized = true
+		it.invalidate()
 		return
 	}
 
-	it.currentPos = 0
-	it.restartIdx = 0
-	it.initialized = true
-
-	key, val, ok := it.decodeCurrent()
-	if ok {
-		it.currentKey = key
-		it.currentVal = val
-	} else {
-		it.currentKey = nil
-		it.currentVal = nil
+	// Consume the first entry with decodeNext so that currentPos ends up
+	// behind it and the following Next() yields the second entry.
+	it.seekToRestartPoint(0)
+	key, val, ok := it.decodeNext()
+	if !ok {
+		it.invalidate()
+		return
 	}
+	it.currentKey = key
+	it.currentVal = val
 }
 
 // SeekToLast positions the iterator at the last entry
 func (it *Iterator) SeekToLast() {
-	if len(it.reader.restartPoints) == 0 {
-		it.currentKey = nil
-		it.currentVal = nil
-		it.initialized = true
-		return
-	}
-
-	// Start from the last restart point
-	it.restartIdx = len(it.reader.restartPoints) - 1
-	it.currentPos = it.reader.restartPoints[it.restartIdx]
 	it.initialized = true
 
-	// Skip forward to the last entry
-	key, val, ok := it.decodeCurrent()
-	if !ok {
-		it.currentKey = nil
-		it.currentVal = nil
+	if len(it.reader.restartPoints) == 0 {
+		it.invalidate()
 		return
 	}
 
-	it.currentKey = key
-	it.currentVal = val
-
-	// Continue moving forward as long as there are more entries
+	// Start from the last restart point and walk to the end of the block.
+	// When decodeNext runs out of entries the last decoded one stays current
+	// and currentPos is the end of the data, so a following Next() ends.
+	it.seekToRestartPoint(len(it.reader.restartPoints) - 1)
 	for {
-		lastPos := it.currentPos
-		lastKey := it.currentKey
-		lastVal := it.currentVal
-
-		key, val, ok = it.decodeNext()
+		key, val, ok := it.decodeNext()
 		if !ok {
-			// Restore position to the last valid entry
-			it.currentPos = lastPos
-			it.currentKey = lastKey
-			it.currentVal = lastVal
 			return
 		}
-
 		it.currentKey = key
 		it.currentVal = val
 	}
 }
 
-// Seek positions the iterator at the first key >= target
+// Seek positions the iterator at the first key >= target.
+// It returns false and leaves the iterator invalid if there is no such key.
 func (it *Iterator) Seek(target []byte) bool {
+	it.initialized = true
+
 	if len(it.reader.restartPoints) == 0 {
+		it.invalidate()
 		return false
 	}
 
-	// Binary search through restart points
+	// Binary search for the last restart point whose key is <= target.
+	// Every key before that restart point is < target, and the first key
+	// >= target can be anywhere in the interval that starts there, so the
+	// scan has to begin at this restart point. If even the first restart
+	// key is > target, the scan starts at the first entry of the block.
 	left, right := 0, len(it.reader.restartPoints)-1
 	for left < right {
-		mid := (left + right) / 2
-		it.restartIdx = mid
+		mid := (left + right + 1) / 2
 		it.currentPos = it.reader.restartPoints[mid]
 
 		key, _, ok := it.decodeCurrent()
 		if !ok {
+			it.invalidate()
 			return false
 		}
 
-		if bytes.Compare(key, target) < 0 {
-			left = mid + 1
+		if bytes.Compare(key, target) <= 0 {
+			left = mid
 		} else {
-			right = mid
+			right = mid - 1
 		}
 	}
 
-	// Position at the found restart point
-	it.restartIdx = left
-	it.currentPos = it.reader.restartPoints[left]
-	it.initialized = true
+	// Scan forward until we find the first key >= target
+	it.seekToRestartPoint(left)
+	for {
+		key, val, ok := it.decodeNext()
+		if !ok {
+			// Every key in the block is < target
+			it.invalidate()
+			return false
+		}
 
-	// First check the current position
-	key, val, ok := it.decodeCurrent()
-	if !ok {
-		return false
-	}
-
-	// If the key at this position is already >= target, we're done
-	if bytes.Compare(key, target) >= 0 {
 		it.currentKey = key
 		it.currentVal = val
-		return true
-	}
-
-	// Otherwise, scan forward until we find the first key >= target
-	for {
-		savePos := it.currentPos
-		key, val, ok = it.decodeNext()
-		if !ok {
-			// Restore position to the last valid entry
-			it.currentPos = savePos
-			key, val, ok = it.decodeCurrent()
-			if ok {
-				it.currentKey = key
-				it.currentVal = val
-				return true
-			}
-			return false
-		}
 
 		if bytes.Compare(key, target) >= 0 {
-			it.currentKey = key
-			it.currentVal = val
 			return true
 		}
-
-		// Update current key/value for the next iteration
-		it.currentKey = key
-		it.currentVal = val
 	}
 }
 
